@@ -45,6 +45,8 @@ def cases(tier, seed):
         tables = list(gen.all_tables(2, 4))
         # larger widths: fixed tables with short last bins, and the long-last-bin / one-bin shapes
         tables += [gen.binnify([7, 5], 3), gen.binnify([6, 6, 2], 2), gen.binnify([9], 4)]
+        # widths whose reciprocal is not exact in binary floating point
+        tables += [gen.binnify([490, 343], 49), gen.binnify([721], 103), gen.binnify([980, 196], 98)]
         tables += list(gen.REPRESENTATIVE_TABLES.values())
     else:
         tables = list(gen.all_tables(2, 5))
